@@ -2,11 +2,12 @@
    Proved on the model: the answer of `root` is the move of the last reported iteration; whenever the root node's
    move loop ends with a best move, that move is recorded and is legal in the root position; the root is never cut
    off by the null move; a table entry can only re-order the root's moves (ordering is a permutation).
-   Proved under a premise: if no successor is valued +INF or more, the root records a legal move whenever legal moves
-   exist.  Not proved: that premise itself (value bounds of evaluation and table entries); decided by
-   the correspondence run over limits, histories, clocks and pre-filled tables. *)
+   Proved at the root level with no hypothesis left (C03_search_answers_with_a_legal_move): for every limit, history and
+   admissible table the search answers with a legal move whenever the root has one -- on the model, for positions
+   satisfying the executable invariant `invr_b`; the tie to the binary is the correspondence run over limits, histories,
+   clocks and pre-filled tables. *)
 From Coq Require Import NArith ZArith List Bool Permutation.
-From Rawr Require Import Consts Bits Magic Position MoveGen MakeMove Eval TT Search MakeStages SearchFacts SearchFacts2 Closure MenCount SearchBound.
+From Rawr Require Import Consts Bits Magic Position MoveGen MakeMove Eval TT Search MakeStages SearchFacts SearchFacts2 Closure MenCount EpRetro SearchBound GenLegal.
 Import ListNotations.
 Local Open Scope Z_scope.
 
@@ -34,21 +35,22 @@ Proof. exact answer_is_last_pv. Qed.
 Theorem C03_ordering_is_permutation : forall p ms tm, Permutation (sort_n p ms tm) ms.
 Proof. exact sort_n_perm. Qed.
 
-(* ---- the root-level statement (SearchBound.v): for every limit (any stop predicate, incl. zero budgets), every game
-   history and every table content satisfying the table invariant `TBnd` (all stored scores within the mate bounds --
+(* ---- the root-level statement (SearchBound.v, GenLegal.v): for every limit (any stop predicate, incl. zero budgets), every
+   game history and every table content satisfying the table invariant `TBnd` (all stored scores within the mate bounds --
    true of a new, a cleared and a resized table and kept by every search: C14_scores_within_the_mate_bounds), the search
-   answers with a move that is legal in the root position whenever the root has one.  `InvS` is the invariant kept by
-   every generated legal move and null move (Closure.v, MenCount.v; executable form `invs_b`).  The one hypothesis left is
-   named: a generated move never leaves the mover's own king attacked -- the soundness half of C01, measured by C01. *)
-Theorem C03_search_answers_with_a_legal_move : forall (stopf : Stats -> bool),
-  (forall u p m, Inv0 p -> In m (legal_moves p) -> in_check_them (makemove u p m) = false) ->
-  forall fuel p hist tt r, InvS p -> TBnd tt -> Z.of_nat fuel <= 2 * MATE_SCORE -> legal_moves p <> [] ->
+   answers with a move that is legal in the root position whenever the root has one.  `InvSR` is the invariant kept by
+   every generated move and null move (Closure.v, MenCount.v, EpRetro.v; executable form `invr_b`).  No hypothesis is left:
+   that a generated move never leaves the mover's own king attacked is C01_no_generated_move_leaves_the_king_attacked. *)
+Theorem C03_search_answers_with_a_legal_move : forall (stopf : Stats -> bool) fuel p hist tt r,
+  InvSR p -> TBnd tt -> Z.of_nat fuel <= 2 * MATE_SCORE -> legal_moves p <> [] ->
   root stopf fuel p hist tt = Some r -> exists m, rr_best r = Some m /\ In m (legal_moves p).
-Proof. exact root_answers_legal. Qed.
+Proof. exact search_answers_with_a_legal_move. Qed.
+Theorem C03_executable_invariant_sound : forall p, invr_b p = true -> InvSR p.
+Proof. exact invr_b_sound. Qed.
 Theorem C03_tables_the_engine_makes_satisfy_the_invariant : forall mb t,
   TBnd (tt_new mb) /\ TBnd (tt_clear t) /\ (TBnd t -> TBnd (tt_resize t mb)).
 Proof. intros mb t. split; [apply TBnd_new|split; [apply TBnd_clear|apply TBnd_resize]]. Qed.
-Example C03_premises_startpos : invs_b startpos = true.
+Example C03_premises_startpos : invr_b startpos = true.
 Proof. vm_compute. reflexivity. Qed.
 
 Print Assumptions C03_root_node_best_legal.
@@ -57,3 +59,4 @@ Print Assumptions C03_answer_is_last_pv.
 Print Assumptions C03_ordering_is_permutation.
 Print Assumptions C03_search_answers_with_a_legal_move.
 Print Assumptions C03_tables_the_engine_makes_satisfy_the_invariant.
+Print Assumptions C03_executable_invariant_sound.
